@@ -1,5 +1,10 @@
-(* C03 — extraction of the discipline checker (ExtrOcamlBasic only). *)
+(* C03 — extraction of the discipline checker and of the phase-order conformance check
+   (ExtrOcamlBasic only). *)
 Require Extraction.
 Require Import ExtrOcamlBasic.
-From Verif.C03 Require Import Model.
-Extraction "model_ml.ml" apply_op apply step_ok discipline_ok first_bad invb closedb avail needed is_plain.
+From Verif.C03 Require Import Model Order Extracted.
+Extraction "model_ml.ml" apply_op apply step_ok discipline_ok first_bad invb closedb avail needed is_plain
+  segment conformsb order_ok1 order_ok2 order_ok_other unindexed_frag
+  freshb written_snaps_closed needed_kept removed_packs_unlisted unindexed_unlisted
+  order_backup order_copy order_merge order_rewrite_trees order_rewrite_meta order_repair_snapshots
+  order_repair_index order_forget order_prune order_config order_key_add order_key_delete.
